@@ -19,6 +19,8 @@ import (
 	"google.golang.org/grpc/peer"
 
 	"istio.io/istio/pilot/pkg/features"
+	"istio.io/istio/pkg/cluster"
+	"istio.io/istio/pkg/config/schema/kind"
 	"istio.io/istio/pilot/pkg/model"
 	pxds "istio.io/istio/pilot/pkg/xds"
 	v3 "istio.io/istio/pilot/pkg/xds/v3"
@@ -55,11 +57,17 @@ type srvSUT struct {
 	shared  map[*model.PushRequest]reqSnap // every request object seen by a stream loop, as it read at first sight
 	nupd    int                            // updates issued so far: every update gets keys of its own (name~<n>)
 	forcedK factSet                        // keys of forced updates
-	gateArm atomic.Bool     // park the next connection reaching "init:after-addcon"
+	gateArm atomic.Pointer[chan struct{}] // park the next connection reaching "init:after-addcon" until this channel is closed
 	gateHit chan struct{}
-	gateGo  chan struct{}
 
-	heldNow *srvConn // the connection currently parked between addCon and MarkInitialized
+	eds        bool           // EDS debounce setting of this case
+	winUpd     int            // producers' calls in this sync window
+	winBypass  int            // ... of which endpoints-only with EDS debounce off (pushed outside the debounce loop)
+	stoppedSrv bool           // the server's stop channel has been closed and DiscoveryServer.Shutdown() called
+	stats      map[string]int // class counters for the evidence (side file <out>.stats)
+	hammerStop chan struct{}  // closing it ends the goroutines of a `puhammer`
+	hammerWG   sync.WaitGroup
+	statsOut   *wire.Out
 	nconfig int64    // ConfigUpdate calls made by the harness (InboundUpdates must agree)
 	inBase  int64    // InboundUpdates when the case started (the server's own start-up notifications)
 	down    bool     // DiscoveryServer.Shutdown() has been called (the push queue ignores new requests)
@@ -71,7 +79,10 @@ type srvSUT struct {
 }
 
 // srvBox is the sut of the stream: one fresh server per case.
-type srvBox struct{ s *srvSUT }
+type srvBox struct {
+	s        *srvSUT
+	statsOut *wire.Out
+}
 
 func (b *srvBox) apply(f []string) string {
 	if f[0] == "case" {
@@ -84,6 +95,7 @@ func (b *srvBox) apply(f []string) string {
 			eds = f[4] != "0"
 		}
 		b.s = newSrvSUT(throttle, eds)
+		b.s.statsOut = b.statsOut
 		return "ok"
 	}
 	if b.s == nil {
@@ -145,6 +157,10 @@ type srvConn struct {
 	reqs     chan *discovery.DiscoveryRequest
 	dreqs    chan *discovery.DeltaDiscoveryRequest
 	failSend atomic.Bool
+	// A failing transport fails the Sends of forced pushes and of answers to requests (the rule of the model); whether an
+	// unforced push sends anything at all depends on the kinds of its keys and the proxy type, so those Sends go through.
+	pushForced atomic.Bool // the push the stream loop is working on is forced (set by the ProxyNeedsPush wrapper)
+	answering  atomic.Bool // the client has made a request that needs an answer since its transport began to fail
 	block    atomic.Bool
 	unblock  chan struct{}
 	pulse    chan struct{} // lets exactly one blocked Send go on while the client keeps not reading
@@ -157,6 +173,16 @@ type srvConn struct {
 	dead       bool
 	expected   factSet
 	failArmed  bool
+	parked     bool          // parked between addCon and MarkInitialized (its gate is still closed)
+	gate       chan struct{} // closing it lets the parked initialisation go on
+	puOwed     bool          // a ProxyUpdate for its address was made in this window
+	router     bool          // presents itself as a router (gateway) proxy
+	recvErr    chan error    // makes the client's Recv fail with an error that is not a cancellation
+	stopping   bool          // Connection.Stop() has been called
+	raced      bool          // ... while its loop was busy with a push event waiting: both channels ready at the select
+	byFail     bool          // dead by the rule "its next Send fails" - not certain once the queue has been shut down (the
+	// push that was to fail may never be delivered); certain again after a sync that saw its handler return
+	stuck      bool          // by the rule of the ops: a forced push for it has run into its blocked Send
 	busy       bool // its stream loop sits in Process (answering a request, Send blocked): it takes no push event
 	reqd       bool // has made its one `busyreq`
 }
@@ -178,7 +204,7 @@ func (c *srvConn) send() error {
 			return c.ctx.Err()
 		}
 	}
-	if c.failSend.Load() {
+	if c.failSend.Load() && (c.pushForced.Load() || c.answering.Load()) {
 		return errors.New("transport is closing")
 	}
 	if c.ctx.Err() != nil {
@@ -197,6 +223,8 @@ func (s sotwSide) Recv() (*discovery.DiscoveryRequest, error) {
 	select {
 	case r := <-s.reqs:
 		return r, nil
+	case err := <-s.recvErr:
+		return nil, err
 	case <-s.ctx.Done():
 		return nil, s.ctx.Err()
 	}
@@ -212,6 +240,8 @@ func (s deltaSide) Recv() (*discovery.DeltaDiscoveryRequest, error) {
 	select {
 	case r := <-s.dreqs:
 		return r, nil
+	case err := <-s.recvErr:
+		return nil, err
 	case <-s.ctx.Done():
 		return nil, s.ctx.Err()
 	}
@@ -226,7 +256,7 @@ func newSrvSUT(throttle int, eds bool) *srvSUT {
 	}
 	features.EnableEDSDebounce = eds
 	s := &srvSUT{f: &srvFailer{}, byID: map[string]*srvConn{}, byPeer: map[string]*srvConn{}, seen: map[int]factSet{}, vers: map[int][]uint64{}, lastVer: map[int]uint64{},
-		shared: map[*model.PushRequest]reqSnap{}, forcedK: sets.New[string](), gateHit: make(chan struct{}, 1), gateGo: make(chan struct{})}
+		shared: map[*model.PushRequest]reqSnap{}, forcedK: sets.New[string](), gateHit: make(chan struct{}, 1), eds: eds, stats: map[string]int{}}
 	s.fs = xdsfake.NewFakeDiscoveryServer(s.f, xdsfake.FakeOptions{DebounceTime: 3 * time.Millisecond})
 	quiet.Silence()
 	s.d = s.fs.Discovery
@@ -248,6 +278,7 @@ func newSrvSUT(throttle int, eds bool) *srvSUT {
 			c = s.byID[proxy.ID]
 		}
 		if c != nil {
+			c.pushForced.Store(req.Forced)
 			if s.seen[c.idx] == nil {
 				s.seen[c.idx] = sets.New[string]()
 			}
@@ -272,7 +303,7 @@ func newSrvSUT(throttle int, eds bool) *srvSUT {
 			if vs := s.vers[c.idx]; len(vs) > 0 {
 				prev = vs[len(vs)-1]
 			}
-			if v < prev {
+			if v < prev && !s.overlap() {
 				s.fail("push-with-older-snapshot-than-the-previous-push-of-the-connection")
 			}
 			s.vers[c.idx] = append(s.vers[c.idx], v)
@@ -302,10 +333,11 @@ func newSrvSUT(throttle int, eds bool) *srvSUT {
 	}
 	s.inBase = s.d.InboundUpdates.Load()
 	pxds.VerifE2ESetGate(func(point string) {
-		if point == "init:after-addcon" && s.gateArm.CompareAndSwap(true, false) {
-			gate := s.gateGo
-			s.gateHit <- struct{}{}
-			<-gate
+		if point == "init:after-addcon" {
+			if g := s.gateArm.Swap(nil); g != nil {
+				s.gateHit <- struct{}{}
+				<-*g
+			}
 		}
 	})
 	return s
@@ -327,8 +359,67 @@ func (s *srvSUT) close() {
 	pxds.VerifE2ESetGate(nil)
 	for _, c := range s.conns {
 		c.cancel()
+		s.openGate(c)
 	}
 	s.f.done()
+	if s.statsOut != nil {
+		keys := make([]string, 0, len(s.stats))
+		for k := range s.stats {
+			keys = append(keys, k)
+		}
+		sort.Strings(keys)
+		for _, k := range keys {
+			s.statsOut.Line(k, strconv.Itoa(s.stats[k]))
+		}
+		s.stats = map[string]int{}
+	}
+}
+
+func (s *srvSUT) stopHammer() {
+	if s.hammerStop != nil {
+		close(s.hammerStop)
+		s.hammerWG.Wait()
+		s.hammerStop = nil
+	}
+}
+
+// selectStats: which way the select went for the loops that found both their push channel and their stop channel ready.
+func (s *srvSUT) selectStats() {
+	s.mu.Lock()
+	defer s.mu.Unlock()
+	for _, c := range s.conns {
+		if c.raced {
+			c.raced = false
+			if len(s.seen[c.idx]) > 0 {
+				s.stats["class.both-ready-select-took-the-push-event"]++
+			} else {
+				s.stats["class.both-ready-select-took-stop"]++
+			}
+		}
+	}
+}
+
+func (s *srvSUT) openGate(c *srvConn) {
+	if c.parked {
+		c.parked = false
+		close(c.gate)
+	}
+}
+
+// overlap: with EDS debounce off an endpoints-only update is pushed outside the debounce loop, so two Push calls can
+// run at the same time and enqueue in either order (eds_bypass_overlap_witness; a stated assumption of the
+// newest-snapshot statements).  In a window where that can happen the version clauses are not judged (loss still is).
+func (s *srvSUT) overlap() bool { return s.winBypass > 0 && s.winUpd > 1 }
+
+// producer: one more producer call (ConfigUpdate / ProxyUpdate / AdsPushAll) in this window.
+func (s *srvSUT) producer(bypass bool) {
+	s.mu.Lock()
+	s.winUpd++
+	if bypass {
+		s.winBypass++
+	}
+	s.mu.Unlock()
+	s.active = true
 }
 
 func (s *srvSUT) fail(clause string) {
@@ -339,7 +430,7 @@ func (s *srvSUT) fail(clause string) {
 
 // open: `node` is the identity the client presents (its own index, or that of an earlier connection it
 // re-connects as).
-func (s *srvSUT) open(idx int, delta, held bool, node int) string {
+func (s *srvSUT) open(idx int, delta, held bool, node int, router bool) string {
 	if idx != len(s.conns) {
 		return "bad-op"
 	}
@@ -347,7 +438,8 @@ func (s *srvSUT) open(idx int, delta, held bool, node int) string {
 	addr := &net.TCPAddr{IP: net.IPv4(10, 0, byte(node/200), byte(1+node%200)), Port: 40000 + idx}
 	ctx, cancel := context.WithCancel(peer.NewContext(context.Background(), &peer.Peer{Addr: addr}))
 	c := &srvConn{idx: idx, delta: delta, node: node,
-		nodeID: fmt.Sprintf("sidecar~10.0.%d.%d~app%d.default~default.svc.cluster.local", node/200, 1+node%200, node),
+		nodeID: fmt.Sprintf("%s~10.0.%d.%d~app%d.default~default.svc.cluster.local", map[bool]string{false: "sidecar", true: "router"}[router], node/200, 1+node%200, node),
+		router: router, recvErr: make(chan error, 1), gate: make(chan struct{}),
 		ctx: ctx, cancel: cancel, reqs: make(chan *discovery.DiscoveryRequest, 4), dreqs: make(chan *discovery.DeltaDiscoveryRequest, 4),
 		unblock: make(chan struct{}), pulse: make(chan struct{}), returned: make(chan struct{}), expected: sets.New[string](), held: held}
 	s.conns = append(s.conns, c)
@@ -356,7 +448,7 @@ func (s *srvSUT) open(idx int, delta, held bool, node int) string {
 	s.byPeer[addr.String()] = c
 	s.mu.Unlock()
 	if held {
-		s.gateArm.Store(true)
+		s.gateArm.Store(&c.gate)
 	}
 	go func() {
 		defer close(c.returned)
@@ -386,6 +478,7 @@ func (s *srvSUT) open(idx int, delta, held bool, node int) string {
 			s.fail("harness:gate-not-reached")
 		}
 		c.registered = true // addCon has happened
+		c.parked = true
 		return "ok"
 	}
 	if !waitUntil(func() bool { return c.sends.Load() >= 1 }) {
@@ -417,15 +510,15 @@ func (s *srvSUT) unsettledClass() string {
 	r := s.rest()
 	_, snap, _ := pxds.VerifC02ServerState(s.d)
 	switch {
-	case r.pushCh > 0:
+	case r.pushCh > 0 && !s.stoppedSrv:
 		return "update-stuck-in-push-channel"
-	case r.in != r.committed:
+	case r.in != r.committed && !s.stoppedSrv:
 		return "update-not-committed-by-debounce"
 	case r.proc > 0:
 		kind := "unknown-client"
 		for pc := range snap.Processing {
 			for _, c := range s.conns {
-				if strings.HasPrefix(pc.ID(), fmt.Sprintf("app%d.default-", c.idx)) {
+				if strings.HasSuffix(pc.Peer(), ":"+strconv.Itoa(40000+c.idx)) {
 					k := "sotw"
 					if c.delta {
 						k = "delta"
@@ -450,23 +543,64 @@ func (s *srvSUT) unsettledClass() string {
 	return "other"
 }
 
+// atRest: what "nothing is on its way any more" means; once the server has been stopped the debounce loop and the
+// sender loop are gone, so only the leak part is left (no processing entry, no token beyond the sender loop's own).
+func (s *srvSUT) atRest() bool {
+	r := s.rest()
+	if s.stoppedSrv {
+		return r.proc == 0 && r.tok <= 1
+	}
+	return r.quiescent()
+}
+
+// registered connections the server should hold: ours that are alive (parked ones included: addCon has happened).
+func (s *srvSUT) liveRegistered() int {
+	n := 0
+	for _, c := range s.conns {
+		if c.registered && !c.dead {
+			n++
+		}
+	}
+	return n
+}
+
+// registrations: "releases everything it held" for the adsClients table: once the handlers of the dead connections
+// have returned, the server holds exactly the live connections (removeCon runs in the deferred Close of the receive
+// goroutine, a moment after the handler).
+func (s *srvSUT) registrations() {
+	want, maybe := s.liveRegistered(), 0
+	for _, c := range s.conns {
+		if c.dead && c.byFail && s.down {
+			maybe++ // (the push whose Send was to fail may never have been delivered: the queue was shut down)
+		}
+	}
+	if !waitUntil(func() bool { n := len(s.d.AllClients()); return want <= n && n <= want+maybe }) {
+		if got := len(s.d.AllClients()); got > want {
+			s.fail("registration-not-released(ended-connection-still-in-adsClients)")
+		} else {
+			s.fail("live-connection-not-registered")
+		}
+	}
+}
+
 func (s *srvSUT) sync() bool {
-	ok := waitUntil(func() bool { return s.rest().quiescent() })
+	ok := waitUntil(s.atRest)
 	if !ok {
 		return false
 	}
 	// dead connections: their handler must have returned
 	for _, c := range s.conns {
-		if c.dead {
+		if c.dead && !(s.down && c.byFail) {
 			select {
 			case <-c.returned:
+				c.byFail = false
 			case <-time.After(patience()):
 				degraded.Store(true)
 				return false
 			}
 		}
 	}
-	return waitUntil(func() bool { return s.rest().quiescent() })
+	return waitUntil(s.atRest)
 }
 
 func (s *srvSUT) summary() string {
@@ -476,10 +610,10 @@ func (s *srvSUT) summary() string {
 	parts := make([]string, len(s.conns))
 	for i, c := range s.conns {
 		switch {
-		case c.dead:
-			parts[i] = fmt.Sprintf("%d=dead", i)
 		case s.down:
 			parts[i] = fmt.Sprintf("%d=*", i) // what still got through when the queue shut down depends on the moment
+		case c.dead:
+			parts[i] = fmt.Sprintf("%d=dead", i)
 		default:
 			seen := sets.New[string]()
 			for f := range s.seen[i] {
@@ -492,6 +626,9 @@ func (s *srvSUT) summary() string {
 			cur := "-"
 			if vs := s.vers[i]; len(vs) > 0 {
 				cur = wire.B(vs[len(vs)-1] == global)
+			}
+			if s.overlap() {
+				cur = "*" // overlapping Push calls (EDS debounce off): which snapshot arrives last is a race
 			}
 			parts[i] = fmt.Sprintf("%d=%s;cur=%s", i, wire.EncSet(sets.SortedList(seen)), cur)
 		}
@@ -530,13 +667,16 @@ func (s *srvSUT) judge() {
 		if seen == nil {
 			seen = sets.New[string]()
 		}
-		if vs := s.vers[i]; len(vs) > 0 && vs[len(vs)-1] != global {
+		if vs := s.vers[i]; len(vs) > 0 && vs[len(vs)-1] != global && !s.overlap() {
 			s.fail("at-rest-last-push-of-a-connection-not-from-the-newest-snapshot")
 		}
 		if lost := c.expected.Difference(seen); len(lost) > 0 {
 			clause := "accepted-update-never-reached-a-connected-proxy"
 			if c.held {
 				clause = "accepted-update-never-reached-a-proxy-registered-during-initialisation"
+			}
+			if c.puOwed && lost.Contains("forced") && len(lost) == 1 {
+				clause = "proxy-update-did-not-reach-every-registered-connection-of-the-address"
 			}
 			s.fail(clause)
 		}
@@ -549,7 +689,9 @@ func (s *srvSUT) newWindow() {
 	s.mu.Lock()
 	defer s.mu.Unlock()
 	s.forcedK = sets.New[string]()
+	s.winUpd, s.winBypass = 0, 0
 	for i, c := range s.conns {
+		c.puOwed = false
 		c.expected = sets.New[string]()
 		s.seen[i] = sets.New[string]()
 		if vs := s.vers[i]; len(vs) > 0 {
@@ -567,10 +709,21 @@ func (s *srvSUT) expect(facts factSet, forced bool) {
 	for _, c := range s.conns {
 		if c.registered && !c.dead {
 			c.expected.Merge(facts)
-			if forced && c.failArmed {
-				c.dead = true // its next Send fails: the stream loop returns the error
-			}
+			s.forcedFor(c, forced)
 		}
+	}
+}
+
+// forcedFor: a forced request is on its way to c: it makes the stream loop Send.
+func (s *srvSUT) forcedFor(c *srvConn, forced bool) {
+	if !forced {
+		return
+	}
+	if c.block.Load() && !c.busy {
+		c.stuck = true
+	}
+	if c.failArmed {
+		c.dead, c.byFail = true, true // its next Send fails: the stream loop returns the error
 	}
 }
 
@@ -584,14 +737,16 @@ func (s *srvSUT) realConn(c *srvConn) *pxds.Connection {
 	return nil
 }
 
-// sharedNode: another live connection presents the same node id (ProxyUpdate looks proxies up by address).
-func (s *srvSUT) sharedNode(c *srvConn) bool {
+// sameAddress: the connections ProxyUpdate has to reach for c's address: every initialised, live connection that
+// presents the same node (cluster id and first IP address are the node's).
+func (s *srvSUT) sameAddress(c *srvConn) []*srvConn {
+	var out []*srvConn
 	for _, o := range s.conns {
-		if o != c && o.node == c.node {
-			return true
+		if o.node == c.node && o.registered && !o.dead && !o.parked {
+			out = append(out, o)
 		}
 	}
-	return false
+	return out
 }
 
 func (s *srvSUT) conn(t string) *srvConn {
@@ -604,8 +759,8 @@ func (s *srvSUT) conn(t string) *srvConn {
 
 func (s *srvSUT) anyStuck() bool {
 	for _, c := range s.conns {
-		if c.busy || (!c.dead && (c.block.Load() || (c.held && s.heldNow == c))) {
-			return true
+		if c.busy || c.block.Load() || c.parked {
+			return true // (closectx / reconn clear all three; Stop() leaves them: the loop cannot return before it is let go)
 		}
 	}
 	return false
@@ -621,39 +776,48 @@ func (s *srvSUT) apply(f []string) (out string) {
 	s.opIdx++
 	switch f[0] {
 	case "conn", "connheld":
-		if len(f) != 3 || (f[2] != "sotw" && f[2] != "delta") || s.ended {
+		// conn <i> <sotw|delta> [router]; several connections may be parked in their initialisation at once
+		if (len(f) != 3 && len(f) != 4) || (f[2] != "sotw" && f[2] != "delta") || (len(f) == 4 && f[3] != "router") || s.ended || s.stoppedSrv {
 			return "bad-op"
 		}
 		i, err := strconv.Atoi(f[1])
-		if err != nil || (f[0] == "connheld" && s.heldNow != nil) {
+		if err != nil || i != len(s.conns) {
 			return "bad-op"
 		}
-		if i != len(s.conns) {
+		return s.open(i, f[2] == "delta", f[0] == "connheld", i, len(f) == 4)
+	case "connas":
+		// connas <i> <j> <kind>: connection j presents the node of connection i, which stays as it is (a proxy that
+		// re-connected while this instance still holds its previous, half-open stream: two registrations, one address)
+		c := s.conn(f[1])
+		if len(f) != 4 || c == nil || s.ended || s.stoppedSrv || (f[3] != "sotw" && f[3] != "delta") {
 			return "bad-op"
 		}
-		r := s.open(i, f[2] == "delta", f[0] == "connheld", i)
-		if f[0] == "connheld" && r == "ok" {
-			s.heldNow = s.conns[i]
+		j, err := strconv.Atoi(f[2])
+		if err != nil || j != len(s.conns) {
+			return "bad-op"
 		}
-		return r
+		return s.open(j, f[3] == "delta", false, c.node, c.router)
 	case "release":
 		c := s.conn(f[1])
-		if len(f) != 2 || c == nil || s.heldNow != c {
+		if len(f) != 2 || c == nil || !c.parked {
 			return "bad-op"
 		}
-		s.heldNow = nil
 		s.active = true
-		close(s.gateGo)
-		s.gateGo = make(chan struct{})
+		if c.failArmed && !c.dead {
+			c.dead, c.byFail = true, true // the answer to its first request fails: Process returns the error
+		}
+		c.answering.Store(true)
+		s.openGate(c)
 		if !c.dead {
 			if !waitUntil(func() bool { return c.sends.Load() >= 1 }) {
 				s.fail("first-request-not-answered")
 			}
+			c.answering.Store(false)
 		}
 		return "ok"
 	case "update":
 		// update <forced> <config keys> [<addresses> <waypoints>]; all lists may be empty ("-"): a full push
-		if (len(f) != 3 && len(f) != 5) || s.ended {
+		if (len(f) != 3 && len(f) != 5) || s.ended || s.stoppedSrv {
 			return "bad-op"
 		}
 		forced := f[1] == "1"
@@ -694,14 +858,21 @@ func (s *srvSUT) apply(f []string) (out string) {
 		}
 		s.nupd++
 		s.nconfig++
-		s.active = true
+		onlyEP := len(keys) > 0
+		for k := range keys {
+			onlyEP = onlyEP && k.Kind == kind.Endpoints
+		}
+		s.producer(!s.eds && onlyEP)
+		if _, _, pc := pxds.VerifC02ServerState(s.d); pc >= 10 {
+			s.stats["class.configupdate-found-the-push-channel-full"]++
+		}
 		s.expect(facts, forced)
 		s.d.ConfigUpdate(req)
 		return "ok"
 	case "proxyupdate":
 		// the second caller of Enqueue: a forced request for one connection carrying the global push context
 		c := s.conn(f[1])
-		if len(f) != 2 || c == nil || c.dead || !c.registered || s.heldNow == c || s.sharedNode(c) || s.ended {
+		if len(f) != 2 || c == nil || c.dead || !c.registered || c.parked || s.ended || s.stoppedSrv {
 			return "bad-op"
 		}
 		con := s.realConn(c)
@@ -710,35 +881,88 @@ func (s *srvSUT) apply(f []string) (out string) {
 			return "ok"
 		}
 		if !s.down {
-			c.expected.Insert("forced")
-			if c.failArmed {
-				c.dead = true
+			// every registered (initialised) connection of the address owes the update, not just one of them
+			same := s.sameAddress(c)
+			if len(same) > 1 {
+				s.stats["class.proxyupdate-for-an-address-with-several-registrations"]++
+			}
+			for _, o := range same {
+				o.expected.Insert("forced")
+				o.puOwed = true
+				s.forcedFor(o, true)
 			}
 		}
-		s.active = true
+		s.producer(false)
 		s.d.ProxyUpdate(con.Proxy().Metadata.ClusterID, con.Proxy().IPAddresses[0])
+		return "ok"
+	case "puhammer":
+		// puhammer <n>: n goroutines keep calling ProxyUpdate for every live connection until the next sync / end; run
+		// together with update bursts under the version clauses (a request enqueued later must not carry an older
+		// push context: ProxyUpdate reads the context and enqueues under pushContextMu)
+		n, err := strconv.Atoi(f[len(f)-1])
+		if len(f) != 2 || err != nil || n < 1 || n > 64 || s.hammerStop != nil || s.ended || s.stoppedSrv || s.down {
+			return "bad-op"
+		}
+		type target struct {
+			id cluster.ID
+			ip string
+		}
+		var ts []target
+		for _, c := range s.conns {
+			if c.registered && !c.dead && !c.parked {
+				if con := s.realConn(c); con != nil {
+					ts = append(ts, target{con.Proxy().Metadata.ClusterID, con.Proxy().IPAddresses[0]})
+					c.expected.Insert("forced")
+					s.forcedFor(c, true)
+				}
+			}
+		}
+		s.producer(false)
+		for _, t := range ts {
+			s.d.ProxyUpdate(t.id, t.ip) // (one call each for certain; the goroutines may be stopped before their first)
+		}
+		stop := make(chan struct{})
+		s.hammerStop = stop
+		for g := 0; g < n; g++ {
+			s.hammerWG.Add(1)
+			go func(g int) {
+				defer s.hammerWG.Done()
+				for k := g; len(ts) > 0; k++ {
+					select {
+					case <-stop:
+						return
+					default:
+					}
+					t := ts[k%len(ts)]
+					s.d.ProxyUpdate(t.id, t.ip)
+				}
+			}(g)
+		}
 		return "ok"
 	case "pushall":
 		// the debug trigger: the third producer (a forced request with the global push context, handed to StartPush)
-		if len(f) != 1 || s.ended {
+		if len(f) != 1 || s.ended || s.stoppedSrv {
 			return "bad-op"
 		}
-		s.active = true
+		s.producer(false)
 		s.expect(sets.New("forced"), true)
 		pxds.AdsPushAll(s.d)
 		return "ok"
 	case "stopconn":
 		// forced disconnect (debug endpoint): Connection.Stop() closes con.stop, the stream loop returns
 		c := s.conn(f[1])
-		if len(f) != 2 || c == nil || c.dead || !c.registered || s.heldNow == c || (c.block.Load() && !c.busy) || s.ended {
+		// (also for a connection parked in its initialisation or stuck in Send: its loop returns once it is let go)
+		if len(f) != 2 || c == nil || c.dead || !c.registered || s.ended {
 			return "bad-op"
 		}
 		con := s.realConn(c)
 		c.dead = true
+		c.stopping = true
 		if con == nil {
 			s.fail("harness:connection-not-registered")
 			return "ok"
 		}
+		c.raced = c.busy
 		if c.busy {
 			// the loop is in Process; give the sender a moment to take the connection's pending request and offer
 			// the event, so that the loop finds both its push channel and its stop channel ready when it comes back
@@ -761,8 +985,8 @@ func (s *srvSUT) apply(f []string) (out string) {
 		// the client stops reading and asks for one more resource type: the stream loop sits in Process, blocked in
 		// Send, and takes no push event until `unblock`.  Only right after a sync (the loop is idle in its select).
 		c := s.conn(f[1])
-		if len(f) != 2 || c == nil || c.dead || !c.registered || s.heldNow == c || c.block.Load() || c.failArmed || c.reqd ||
-			s.active || s.down || s.ended {
+		if len(f) != 2 || c == nil || c.dead || !c.registered || c.parked || c.block.Load() || c.failArmed || c.reqd ||
+			s.active || s.down || s.ended || s.stoppedSrv {
 			return "bad-op"
 		}
 		c.block.Store(true)
@@ -816,10 +1040,56 @@ func (s *srvSUT) apply(f []string) (out string) {
 			}
 		}
 		return "ok"
+	case "reqnew":
+		// the client asks for one more resource type (a request that needs an answer, processed by the stream loop
+		// between pushes); with a failing transport Process returns the error and the stream ends
+		c := s.conn(f[1])
+		if len(f) != 2 || c == nil || c.dead || !c.registered || c.parked || c.block.Load() || c.busy || c.reqd || s.ended {
+			return "bad-op"
+		}
+		c.reqd = true
+		before := c.sends.Load()
+		c.answering.Store(true)
+		if c.failArmed {
+			c.dead, c.byFail = true, true
+			s.stats["class.process-fails(send-error-while-answering-a-request)"]++
+		}
+		if c.delta {
+			c.dreqs <- &discovery.DeltaDiscoveryRequest{TypeUrl: v3.ListenerType}
+		} else {
+			c.reqs <- &discovery.DiscoveryRequest{TypeUrl: v3.ListenerType}
+		}
+		if !waitUntil(func() bool { return c.sends.Load() > before }) {
+			s.fail("harness:request-not-answered")
+		}
+		if !c.dead {
+			c.answering.Store(false)
+		}
+		return "ok"
+	case "recverr":
+		// the client's Recv fails with an error that is not a cancellation: Receive hands it to the loop through
+		// errorChan and closes the request channel; the loop returns it
+		c := s.conn(f[1])
+		if len(f) != 2 || c == nil || c.dead || !c.registered || c.parked || c.block.Load() || c.busy || s.ended {
+			return "bad-op"
+		}
+		c.dead = true
+		c.recvErr <- errors.New("rpc error: code = Internal desc = transport: received the wrong frame")
+		return "ok"
+	case "stopserver":
+		// the server's stop channel is closed (debounce loop, sender loop and every parked push goroutine see it) and
+		// DiscoveryServer.Shutdown() runs, with the stream loops still there: all clean-ups of the fake server, now
+		if len(f) != 1 || s.stoppedSrv || s.ended {
+			return "bad-op"
+		}
+		s.stopHammer()
+		s.stoppedSrv, s.down = true, true
+		s.f.done()
+		return "ok"
 	case "reconn":
 		// the same node connects again while its old stream is only just ending
 		c := s.conn(f[1])
-		if len(f) != 4 || c == nil || c.dead || s.heldNow != nil || s.ended || (f[3] != "sotw" && f[3] != "delta") {
+		if len(f) != 4 || c == nil || c.dead || s.ended || s.stoppedSrv || (f[3] != "sotw" && f[3] != "delta") {
 			return "bad-op"
 		}
 		j, err := strconv.Atoi(f[2])
@@ -830,18 +1100,20 @@ func (s *srvSUT) apply(f []string) (out string) {
 		c.busy = false
 		c.block.Store(false)
 		c.cancel()
-		return s.open(j, f[3] == "delta", false, c.node)
+		s.openGate(c)
+		return s.open(j, f[3] == "delta", false, c.node, c.router)
 	case "shutdown":
 		// DiscoveryServer.Shutdown()'s effect on pushes: the push queue shuts down (drains what it has, ignores the rest)
 		if len(f) != 1 || s.down || s.anyStuck() || s.ended {
 			return "bad-op"
 		}
+		s.stopHammer()
 		s.down = true
 		pxds.VerifC02QueueShutDown(s.d) // what DiscoveryServer.Shutdown does to the queue (it can be called only once)
 		return "ok"
 	case "updatepar":
 		// several producers call ConfigUpdate at the same moment, one key each
-		if len(f) != 3 || s.ended {
+		if len(f) != 3 || s.ended || s.stoppedSrv {
 			return "bad-op"
 		}
 		forced := f[1] == "1"
@@ -857,7 +1129,7 @@ func (s *srvSUT) apply(f []string) (out string) {
 			s.expect(facts, forced)
 			s.nupd++
 			s.nconfig++
-			s.active = true
+			s.producer(!s.eds && ck.Kind == kind.Endpoints)
 			wg.Add(1)
 			go func() {
 				defer wg.Done()
@@ -878,8 +1150,8 @@ func (s *srvSUT) apply(f []string) (out string) {
 		return "ok"
 	case "failsend":
 		c := s.conn(f[1])
-		if len(f) != 2 || c == nil || s.heldNow == c || c.busy {
-			return "bad-op" // its first response has not been sent yet
+		if len(f) != 2 || c == nil || c.busy {
+			return "bad-op"
 		}
 		c.failSend.Store(true)
 		c.failArmed = true
@@ -898,6 +1170,10 @@ func (s *srvSUT) apply(f []string) (out string) {
 		}
 		c.block.Store(false)
 		c.busy = false
+		if c.stuck && c.failArmed {
+			c.dead, c.byFail = true, true // the Send it was stuck in fails
+		}
+		c.stuck = false
 		close(c.unblock)
 		c.unblock = make(chan struct{})
 		return "ok"
@@ -910,22 +1186,21 @@ func (s *srvSUT) apply(f []string) (out string) {
 		c.busy = false
 		c.block.Store(false) // (a Send blocked on it returns on the cancelled context)
 		c.cancel()
-		if s.heldNow == c { // the initialisation goroutine runs on and finds the stream gone
-			s.heldNow = nil
-			close(s.gateGo)
-			s.gateGo = make(chan struct{})
-		}
+		s.openGate(c) // the initialisation goroutine runs on and finds the stream gone
 		return "ok"
 	case "sync":
-		if len(f) != 1 || s.anyStuck() || s.ended {
+		if len(f) != 1 || s.anyStuck() || s.ended || s.stoppedSrv {
 			return "bad-op"
 		}
+		s.stopHammer()
 		if !s.sync() {
 			s.fail("does-not-come-to-rest:" + s.unsettledClass())
 			return s.summary() + " UNSETTLED"
 		}
 		s.judge()
+		s.registrations()
 		sum := s.summary()
+		s.selectStats()
 		s.newWindow()
 		s.active = false
 		return sum
@@ -934,12 +1209,16 @@ func (s *srvSUT) apply(f []string) (out string) {
 			return "bad-op"
 		}
 		// let everything go that the script still holds, then look at the server at rest
-		if s.heldNow != nil {
-			s.heldNow = nil
-			close(s.gateGo)
-			s.gateGo = make(chan struct{})
-		}
+		s.stopHammer()
 		for _, c := range s.conns {
+			if c.parked {
+				c.answering.Store(true)
+			}
+			if !c.dead && c.failArmed && (c.parked || c.stuck) {
+				c.dead, c.byFail = true, true // the Send it is about to make / is stuck in fails
+			}
+			c.stuck = false
+			s.openGate(c)
 			c.busy = false
 			if c.block.Load() {
 				c.block.Store(false)
@@ -953,6 +1232,8 @@ func (s *srvSUT) apply(f []string) (out string) {
 			s.fail("does-not-come-to-rest:" + s.unsettledClass())
 		} else {
 			s.judge()
+			s.registrations()
+			s.selectStats()
 		}
 		sum := s.summary()
 		r := s.rest()
@@ -985,18 +1266,34 @@ func genServerCase(r *wire.Rng, c int, out *wire.Out) {
 	if r.Chance(1, 4) {
 		throttle = 1 + r.Intn(2)
 	}
-	if r.Chance(1, 6) {
+	if r.Chance(1, 4) {
 		eds = false
 	}
 	out.Line("case", strconv.Itoa(c), "server", strconv.Itoa(throttle), wire.B(eds))
 	n := 0
 	kind := func() string { return wire.Pick(r, []string{"sotw", "delta"}) }
+	conn := func(op string) int {
+		if r.Chance(1, 4) {
+			out.Line(op, strconv.Itoa(n), kind(), "router") // a gateway proxy
+		} else {
+			out.Line(op, strconv.Itoa(n), kind())
+		}
+		n++
+		return n - 1
+	}
 	alive := []int{}
-	reused := map[int]bool{} // node ids presented by more than one connection
-	reqd := map[int]bool{}   // connections that have made their one busyreq
+	reqd := map[int]bool{} // connections that have made their one busyreq / reqnew
 	nupd := 0
 	var lastKeys []string
 	drop := func(j int) { alive = append(alive[:j], alive[j+1:]...) }
+	dropConn := func(a int) {
+		for j := range alive {
+			if alive[j] == a {
+				drop(j)
+				return
+			}
+		}
+	}
 	upd := func(forced bool) {
 		var ks []string
 		if lastKeys != nil && r.Chance(1, 3) {
@@ -1005,11 +1302,16 @@ func genServerCase(r *wire.Rng, c int, out *wire.Out) {
 			if r.Chance(1, 2) {
 				forced = false
 			}
+		} else if !eds && r.Chance(1, 3) {
+			// endpoints only, in the middle of everything else: with EDS debounce off it is pushed outside the debounce
+			// loop, so its Push call can run at the same time as another one
+			ks = []string{"Endpoints/ns1/e" + strconv.Itoa(nupd)}
+			forced = false
 		} else {
 			for _, k := range wire.Subset(r, srvKeys, 1, 3) {
 				ks = append(ks, k+strconv.Itoa(nupd)) // names of its own
 			}
-			if len(ks) == 0 && !r.Chance(1, 4) {
+			if len(ks) == 0 && r.Chance(1, 2) {
 				ks = []string{wire.Pick(r, srvKeys) + strconv.Itoa(nupd)}
 			}
 		}
@@ -1033,12 +1335,10 @@ func genServerCase(r *wire.Rng, c int, out *wire.Out) {
 		}
 	}
 	for i, k := 0, 1+r.Intn(3); i < k; i++ {
-		out.Line("conn", strconv.Itoa(n), kind())
-		alive = append(alive, n)
-		n++
+		alive = append(alive, conn("conn"))
 	}
 	for step, steps := 0, 2+r.Intn(6); step < steps; step++ {
-		switch r.Intn(17) {
+		switch r.Intn(24) {
 		case 0, 1: // a burst of updates (merged by debounce and by the queue); sometimes long enough to fill the push channel
 			k := 1 + r.Intn(4)
 			if r.Chance(1, 5) {
@@ -1056,31 +1356,49 @@ func genServerCase(r *wire.Rng, c int, out *wire.Out) {
 				out.Line("update", "0", wire.EncList(lastKeys))
 				out.Line("sync")
 			}
-		case 2: // a connection registered in the middle of its initialisation must not miss the push
+		case 2: // connections registered in the middle of their initialisation (one or two at once) must not miss the push
 			out.Line("sync")
-			out.Line("connheld", strconv.Itoa(n), kind())
+			held := []int{conn("connheld")}
+			if r.Chance(1, 3) {
+				held = append(held, conn("connheld"))
+			}
 			for i, k := 0, 1+r.Intn(2); i < k; i++ {
 				upd(r.Chance(1, 2))
 			}
 			if !r.Chance(1, 5) {
 				out.Line("pushed") // StartPush has run while the connection was registered but not initialised
 			}
-			if r.Chance(1, 3) {
-				// the client gives up while its push event is parked (its stream loop never got to read it)
-				out.Line("closectx", strconv.Itoa(n))
-			} else {
-				out.Line("release", strconv.Itoa(n))
-				alive = append(alive, n)
+			for _, h := range held {
+				switch r.Intn(6) {
+				case 0, 1:
+					// the client gives up while its push event is parked (its stream loop never got to read it)
+					out.Line("closectx", strconv.Itoa(h))
+				case 2:
+					// forced disconnect of a connection that is not initialised yet
+					out.Line("stopconn", strconv.Itoa(h))
+					out.Line("release", strconv.Itoa(h))
+				case 3:
+					// its transport fails on the very first answer
+					out.Line("failsend", strconv.Itoa(h))
+					out.Line("release", strconv.Itoa(h))
+				default:
+					out.Line("release", strconv.Itoa(h))
+					alive = append(alive, h)
+				}
 			}
-			n++
 			out.Line("sync")
-		case 3: // the client's transport fails on the next response
+		case 3: // the client's transport fails on the next response (to a push, or to a request of its own: Process fails)
 			if len(alive) > 0 {
 				j := r.Intn(len(alive))
-				out.Line("failsend", strconv.Itoa(alive[j]))
-				if r.Chance(1, 3) && !reused[alive[j]] {
-					out.Line("proxyupdate", strconv.Itoa(alive[j]))
-				} else {
+				a := alive[j]
+				out.Line("failsend", strconv.Itoa(a))
+				switch {
+				case r.Chance(1, 3):
+					out.Line("proxyupdate", strconv.Itoa(a))
+				case r.Chance(1, 3) && !reqd[a]:
+					out.Line("reqnew", strconv.Itoa(a))
+					reqd[a] = true
+				default:
 					upd(true)
 				}
 				if r.Chance(1, 2) {
@@ -1089,29 +1407,45 @@ func genServerCase(r *wire.Rng, c int, out *wire.Out) {
 				drop(j)
 				out.Line("sync")
 			}
-		case 4: // the client stops reading (Send blocks), more pushes pile up for it, then it goes away
+		case 4: // the client stops reading (Send blocks), more pushes pile up for it, then it goes away one way or another
 			if len(alive) > 0 {
 				j := r.Intn(len(alive))
-				out.Line("blocksend", strconv.Itoa(alive[j]))
+				a := strconv.Itoa(alive[j])
+				out.Line("blocksend", a)
 				upd(true)
 				upd(true)
-				if r.Chance(2, 3) {
-					out.Line("closectx", strconv.Itoa(alive[j]))
+				switch r.Intn(6) {
+				case 0, 1, 2:
+					out.Line("closectx", a)
 					drop(j)
-				} else {
-					out.Line("unblock", strconv.Itoa(alive[j]))
+				case 3:
+					// forced disconnect while its loop is stuck in Send
+					out.Line("stopconn", a)
+					out.Line("unblock", a)
+					drop(j)
+				case 4:
+					// the Send it is stuck in fails
+					out.Line("failsend", a)
+					out.Line("unblock", a)
+					drop(j)
+				default:
+					out.Line("unblock", a)
 				}
 				out.Line("sync")
 			}
-		case 5: // the client goes away while idle
+		case 5: // the client goes away while idle: context cancelled, or Recv fails with an unexpected error
 			if len(alive) > 0 {
 				j := r.Intn(len(alive))
-				out.Line("closectx", strconv.Itoa(alive[j]))
+				if r.Chance(1, 2) {
+					out.Line("closectx", strconv.Itoa(alive[j]))
+				} else {
+					out.Line("recverr", strconv.Itoa(alive[j]))
+				}
 				drop(j)
 				upd(r.Chance(1, 2))
 				out.Line("sync")
 			}
-		case 6, 7: // ProxyUpdate: the other producer of the push queue, at any point of a push round
+		case 6, 7: // ProxyUpdate / AdsPushAll: the other producers of the push queue, at any point of a push round
 			if len(alive) > 0 {
 				if r.Chance(1, 2) {
 					upd(r.Chance(1, 2))
@@ -1120,7 +1454,7 @@ func genServerCase(r *wire.Rng, c int, out *wire.Out) {
 					a := wire.Pick(r, alive)
 					if r.Chance(1, 4) {
 						out.Line("pushall")
-					} else if !reused[a] {
+					} else {
 						out.Line("proxyupdate", strconv.Itoa(a))
 					}
 					if r.Chance(1, 2) {
@@ -1155,7 +1489,6 @@ func genServerCase(r *wire.Rng, c int, out *wire.Out) {
 				upd(r.Chance(1, 2))
 				out.Line("sync") // (what a connection that registers in the middle of a window still gets of it is a race)
 				out.Line("reconn", strconv.Itoa(alive[j]), strconv.Itoa(n), kind())
-				reused[alive[j]], reused[n] = true, true
 				drop(j)
 				alive = append(alive, n)
 				n++
@@ -1170,20 +1503,18 @@ func genServerCase(r *wire.Rng, c int, out *wire.Out) {
 		case 12: // ProxyUpdate for a connection whose push is stuck in Send while a newer snapshot is already waiting for it
 			if len(alive) > 0 {
 				j := r.Intn(len(alive))
-				if !reused[alive[j]] {
-					out.Line("sync")
-					out.Line("blocksend", strconv.Itoa(alive[j]))
-					upd(true)
-					out.Line("pushed")
+				out.Line("sync")
+				out.Line("blocksend", strconv.Itoa(alive[j]))
+				upd(true)
+				out.Line("pushed")
+				upd(r.Chance(1, 2))
+				out.Line("pushed")
+				out.Line("proxyupdate", strconv.Itoa(alive[j]))
+				if r.Chance(1, 2) {
 					upd(r.Chance(1, 2))
-					out.Line("pushed")
-					out.Line("proxyupdate", strconv.Itoa(alive[j]))
-					if r.Chance(1, 2) {
-						upd(r.Chance(1, 2))
-					}
-					out.Line("unblock", strconv.Itoa(alive[j]))
-					out.Line("sync")
 				}
+				out.Line("unblock", strconv.Itoa(alive[j]))
+				out.Line("sync")
 			}
 		case 13, 14: // forced disconnect while the stream loop is busy with a client request and a push event is waiting for it
 			out.Line("sync")
@@ -1203,31 +1534,95 @@ func genServerCase(r *wire.Rng, c int, out *wire.Out) {
 			for _, a := range busy {
 				if r.Chance(4, 5) {
 					out.Line("stopconn", strconv.Itoa(a))
-					for j := range alive {
-						if alive[j] == a {
-							drop(j)
-							break
-						}
-					}
+					dropConn(a)
 				}
 			}
 			for _, a := range busy {
 				out.Line("unblock", strconv.Itoa(a))
 			}
 			out.Line("sync")
+		case 15, 16: // one address, two registrations (the proxy re-connected, its old stream is half-open): ProxyUpdate must reach both
+			if len(alive) > 0 {
+				a := wire.Pick(r, alive)
+				out.Line("sync")
+				out.Line("connas", strconv.Itoa(a), strconv.Itoa(n), kind())
+				b := n
+				alive = append(alive, b)
+				n++
+				for i, k := 0, 1+r.Intn(3); i < k; i++ {
+					out.Line("proxyupdate", strconv.Itoa(wire.Pick(r, []int{a, b})))
+					if r.Chance(1, 3) {
+						upd(r.Chance(1, 2))
+					}
+					out.Line("sync")
+				}
+			}
+		case 17, 18: // ProxyUpdate from many goroutines while push rounds publish new contexts and enqueue them
+			if len(alive) > 0 {
+				out.Line("sync")
+				out.Line("puhammer", strconv.Itoa(4+r.Intn(13)))
+				for i, k := 0, 3+r.Intn(6); i < k; i++ {
+					upd(r.Chance(1, 2))
+					if r.Chance(1, 2) {
+						out.Line("pushed")
+					}
+				}
+				out.Line("sync")
+			}
+		case 19: // more client requests between pushes (a new resource type: answered by the stream loop itself)
+			if len(alive) > 0 {
+				a := wire.Pick(r, alive)
+				upd(r.Chance(1, 2))
+				if !reqd[a] {
+					out.Line("reqnew", strconv.Itoa(a))
+					reqd[a] = true
+				}
+				upd(r.Chance(1, 2))
+				out.Line("sync")
+			}
+		case 20: // a key-less forced update / addresses and waypoints only, in a window of its own
+			if r.Chance(1, 2) {
+				out.Line("update", "1", "-")
+			} else {
+				out.Line("update", wire.B(r.Chance(1, 2)), "-", wire.EncList([]string{wire.Pick(r, srvAddrs) + strconv.Itoa(nupd)}),
+					wire.EncList(wire.Subset(r, srvWps, 1, 2)))
+			}
+			nupd++
+			out.Line("sync")
 		default:
 			out.Line("sync")
-			out.Line("conn", strconv.Itoa(n), kind())
-			alive = append(alive, n)
-			n++
+			alive = append(alive, conn("conn"))
 		}
 	}
-	if r.Chance(1, 8) {
-		// DiscoveryServer.Shutdown() with live stream loops and updates still coming
+	switch r.Intn(8) {
+	case 0:
+		// the push queue shut down with live stream loops and updates still coming
 		upd(true)
 		out.Line("shutdown")
 		upd(r.Chance(1, 2))
 		out.Line("sync")
+	case 1, 2:
+		// the server stops (stop channel closed, DiscoveryServer.Shutdown) while push events are parked for connections
+		// that are not reading: one in its initialisation, one stuck in Send, one busy with a request
+		out.Line("sync")
+		h := conn("connheld")
+		if len(alive) > 0 {
+			a := wire.Pick(r, alive)
+			if r.Chance(1, 2) {
+				out.Line("blocksend", strconv.Itoa(a))
+			} else if !reqd[a] {
+				out.Line("busyreq", strconv.Itoa(a))
+			}
+		}
+		upd(true)
+		if r.Chance(1, 2) {
+			upd(r.Chance(1, 2))
+		}
+		out.Line("pushed")
+		out.Line("stopserver")
+		if r.Chance(1, 2) {
+			out.Line("release", strconv.Itoa(h))
+		}
 	}
 	out.Line("end")
 }
